@@ -699,6 +699,43 @@ def run_history_forms_sweep(case, seed, R):
     R.outcome('formsweep:' + conv)
 
 
+# ---------------------------------------------------------------------------------------------
+# call forms: the index (or n, m) handed over BY KEYWORD, positional and keyword calls interleaved -- a wrapper (memo, validator) that
+# forwards **kwargs may key or validate on the positional tuple only
+
+KW = {'noll': 'idx', 'ansi': 'idx', 'fringe': 'idx', 'xy': 'j'}
+
+
+def run_keyword(case, seed, R):
+    import prysm.polynomials as PP
+    conv, J = case['conv'], case['J']
+    f = getattr(PP, FWD[conv], None)
+    if not R.expect(callable(f), f'{FWD[conv]}:missing', f'{FWD[conv]} not exported'):
+        return
+    ref = _ref_table(conv, J)
+    j0 = first_index(conv, 0)
+    order = list(range(j0, J + 1)) + list(range(J, j0 - 1, -7)) + [j0, J, j0 + 1]
+    for k, j in enumerate(order):
+        for mode in (('kw',) if k % 3 else ('kw', 'pos', 'kw')):
+            out = R.call(f, **{KW[conv]: j}, sig=f'{FWD[conv]}:keyword:exception', hygiene=False) if mode == 'kw' else R.call(f, j, sig=f'{FWD[conv]}:exception', hygiene=False)
+            ok_, n_, m_ = as_pair_value(out)
+            got = (n_, m_) if ok_ else out
+            if not R.expect(ok_ and got == tuple(ref[j]), f'{FWD[conv]}:call-form:{"keyword" if mode == "kw" else "positional-after-keyword"}',
+                            f'{FWD[conv]}({KW[conv]}={j}) -> {got!r}, published order {tuple(ref[j])} (call {k} of an interleaved positional / keyword sequence)'):
+                return
+    if conv in INV:
+        g = getattr(PP, INV[conv], None)
+        if callable(g):
+            for j in order:
+                n, m = ref[j]
+                for kw in ({'n': n, 'm': m}, {'m': m, 'n': n}):
+                    out = R.call(g, **kw, sig=f'{INV[conv]}:keyword:exception', hygiene=False)
+                    if not R.expect(as_int_value(out) == j, f'{INV[conv]}:call-form:keyword', f'{INV[conv]}(n={n}, m={m}) by keyword -> {out!r}, want {j}'):
+                        return
+    R.nontrivial()
+    R.outcome(f'keyword:{conv}')
+
+
 def blocks(conv, J, size):
     """Row-aligned blocks covering every index up to the end of the row containing J."""
     out = []
@@ -758,7 +795,11 @@ def plan(tier, seed):
     hfs_cases = [{'conv': c, 'form': fm, 'J': JH} for c in ('ansi', 'fringe', 'noll', 'xy') for fm in earlier_forms(c)]
     cells = '; '.join(f"{FWD[c]}: " + ', '.join(f"{dt} <= {b}" if b < WIDE else dt for dt, b in DOMAIN[c].items()) for c in DOMAIN)
     cover = ', '.join(f'{c}: j <= {per[c][0]} (rows <= {per[c][1]})' for c in per)
+    kw_cases = [{'conv': c, 'J': 300 if tier == 'quick' else 3000} for c in ('noll', 'fringe', 'ansi', 'xy')]
     return [
+        ScopeUnit('call_forms', kw_cases, run_keyword,
+                  'every index up to 300 (thorough 3000) of the four forward maps handed over BY KEYWORD (idx= / j=), ascending then descending in steps of 7, with positional calls of the same and of other '
+                  'indices interleaved; nm_to_fringe / nm_to_ansi_j with n=, m= in both keyword orders; every answer against the brute-force published order'),
         ScopeUnit('index_blocks', cases, run_block,
                   f'EVERY single index of Noll, Fringe, ANSI (from 0) and XY up to the end of the row containing {J} [{cover}], cut into row-aligned blocks of ~{size} '
                   'indices; per index: integer types, validity, equality with the brute-force published order, Noll parity and monotone n, ANSI closed form, '
